@@ -9,8 +9,8 @@ from harness import zones as Z
 
 ID = "C19"
 BACKENDS = ("py", "rs")
-GEN_MODULES = ()
-MIN_THEOREMS = 21
+GEN_MODULES = ("Interval:source", "Interval:range", "Interval:endpoints")
+MIN_THEOREMS = 25
 US = D.US
 DAY = 86400 * US
 YMAX = Z.YMAX_QUICK
